@@ -1835,8 +1835,14 @@ where
                 }
             }
 
-            match u32::from_str_radix(&s, 16) {
-                Ok(u) => {
+            // from_str_radix also accepts a leading sign, which is not a HexDigit.
+            let hex = if s.bytes().all(|b| b.is_ascii_hexdigit()) {
+                u32::from_str_radix(&s, 16).ok()
+            } else {
+                None
+            };
+            match hex {
+                Some(u) => {
                     if u > 0x10_FFFF {
                         self.input = orig_input;
                         None
@@ -1861,8 +1867,13 @@ where
                     return None;
                 }
             }
-            match u16::from_str_radix(&s, 16) {
-                Ok(u) => {
+            let hex = if s.bytes().all(|b| b.is_ascii_hexdigit()) {
+                u16::from_str_radix(&s, 16).ok()
+            } else {
+                None
+            };
+            match hex {
+                Some(u) => {
                     if (0xD800..=0xDBFF).contains(&u) {
                         // Found a high surrogate. Try to parse a low surrogate next
                         // to see if we can rebuild the original `char`
@@ -1883,6 +1894,9 @@ where
                                 s.push(c);
                             }
 
+                            if !s.bytes().all(|b| b.is_ascii_hexdigit()) {
+                                return None;
+                            }
                             let uu = u16::from_str_radix(&s, 16).ok()?;
                             let ch = char::decode_utf16([u, uu]).next()?.ok()?;
                             Some(u32::from(ch))
